@@ -16,6 +16,21 @@ CHECKS = {
          "Writes enumerated field-boundary frames (IHL x total length x protocol x L4 length, TCP data offset x segment length, all 3-byte option layouts over a boundary alphabet, UDP length vs actual, short ICMP, odd ARP), seeded random/mutated frames and flood histories (70k distinct half-open attempts, mixed RST/FIN/ACK, 70k copies of one SYN) into the real receive loop under three ARP/route configurations; after each batch a well-formed UDP probe must still yield its event and the process must be alive.",
          "Frames arrive over an AF_UNIX datagram socketpair registered on an unprivileged epoll instance (hook), not AF_PACKET. Held = no explored frame or history stopped the loop; nothing is claimed for frames outside the generators.",
          "DESIGN.md §5 C02"),
+ "C06": ("exploration",
+         "runtime monitoring: capture channels record deliveries of stamped events through the real bus/filters; offline oracle = reference router from the statement (ordered multiset per channel and sender, token, metamorphic re-run without the other channels)",
+         "Generated channel/filter configurations are run through the real server.Run; a stub service puts stamped events with matching, non-matching, missing and non-string category/service on the bus; the recorded per-channel delivery lists must equal the reference router's, carry the sensor token, and not change when unrelated channels/filters are removed.",
+         "Only lab-capture channels are used as sinks (the routing code is independent of the sink type). Empty list == absent list; non-string field == empty string.",
+         "DESIGN.md §5 C06"),
+ "C08": ("exploration",
+         "runtime monitoring: stub services record invocation and bytes read behind the real dispatcher (in-memory listener with exact segmentation and the real socket listener on loopback); offline oracle = reference selector from the statement + byte-exact stream comparison",
+         "Generated port tables with detector-less and prefix-detector stub services are served by the real server.Run; probe connections with chosen first-segment lengths must reach exactly the service the statement selects, which must read the client's bytes complete and in order; unlisted ports/addresses must reach nobody.",
+         "For loopback sockets the kernel may coalesce segments, so the oracle admits the choice for any prefix >= the first write. Zero-byte clients are judged weakly.",
+         "DESIGN.md §5 C08"),
+ "C19": ("exploration",
+         "runtime monitoring: recording listener observes AddAddress calls of the real server.Run, stub probes observe reachability; offline oracle = reference port-table builder from the statement; the port-string parser is compared with a reference parser over all 65,536 numbers x {tcp,udp} (exhaustive) and a malformed set",
+         "Generated configurations (port/ports, malformed strings, undefined and duplicate service names, duplicates across entries) are loaded by the real server; the multiset of addresses the listener is asked to listen on and the service each probed address reaches must equal the reference table's.",
+         "IP literals only; non-canonical numerals are not generated because the statement does not pin them.",
+         "DESIGN.md §5 C19"),
 }
 
 NOT_YET = {
